@@ -62,6 +62,9 @@ pub struct NodeCfg {
     /// the store's `remove_tombstones` removes whatever row a key names (as SQLite's does)
     #[serde(default)]
     pub blunt_removal: bool,
+    /// which of the store's non-empty `remove_tombstones` calls (1-based) fail having removed nothing
+    #[serde(default)]
+    pub removal_faults: Vec<u64>,
 }
 
 #[derive(Serialize, Deserialize, Clone, Debug)]
@@ -186,7 +189,7 @@ pub struct Shared {
     pub ghosts: BTreeMap<u8, Vec<(u8, u8)>>,
     /// per node: the caller of the node's next operation gives up after this many ms (the future
     /// of put/put_many/del/del_many is dropped at whatever await point it has reached)
-    pub cancel_next: BTreeMap<u8, u64>,
+    pub cancel_next: BTreeMap<u8, (u64, Option<u32>)>,
 }
 
 pub type SharedRef = Rc<RefCell<Shared>>;
@@ -238,6 +241,7 @@ impl<'a> Cluster<'a> {
                 st.read_faults = n.storage_read_faults.iter().copied().collect();
                 st.latency_seed = mix(cfg.net_seed, n.id as u64);
                 st.blunt_removal = n.blunt_removal;
+                st.removal_faults = n.removal_faults.iter().copied().collect();
             }
             stores.insert(n.id, s);
         }
@@ -739,24 +743,25 @@ async fn run_op(sh: &SharedRef, node: u8, h: &ReplicatedStoreHandle<SimStorage>,
         }
     };
     let give_up = sh.borrow_mut().cancel_next.remove(&node);
-    let res = match give_up {
-        None => call.await,
-        Some(ms) => match tokio::time::timeout(Duration::from_millis(ms), call).await {
-            Ok(r) => r,
-            Err(_) => {
-                // the caller gave up: the call never returned anything. Whatever it had handed to
-                // the keyspace actor or the distributor by then may still happen (the window of
-                // writes that count as this operation stays open, as for a call cut short by a crash)
-                let now = turmoil::elapsed().as_millis() as u64;
-                let mut s = sh.borrow_mut();
-                s.log.u64(op_id as u64).str("cancelled");
-                if let Some(r) = s.ops.iter_mut().find(|r| r.op_id == op_id) {
-                    r.returned_ms = Some(now);
-                    r.result = Some("cancelled".to_string());
-                }
-                return;
-            },
-        },
+    // the caller gives up after some virtual time, or - to reach await points that are passed
+    // without any virtual time going by - when the call has been left pending a number of times
+    let outcome = match give_up {
+        None => Some(call.await),
+        Some((_, Some(polls))) => crate::framework::GiveUpAfterPolls::new(call, polls).await,
+        Some((ms, None)) => tokio::time::timeout(Duration::from_millis(ms), call).await.ok(),
+    };
+    let Some(res) = outcome else {
+        // the call never returned anything. Whatever it had handed to the keyspace actor or the
+        // distributor by then may still happen (the window of writes that count as this operation
+        // stays open, as for a call cut short by a crash)
+        let now = turmoil::elapsed().as_millis() as u64;
+        let mut s = sh.borrow_mut();
+        s.log.u64(op_id as u64).str("cancelled");
+        if let Some(r) = s.ops.iter_mut().find(|r| r.op_id == op_id) {
+            r.returned_ms = Some(now);
+            r.result = Some("cancelled".to_string());
+        }
+        return;
     };
     // ---- the instant the call returns: no await between here and the end of this function ----
     let returned = turmoil::elapsed().as_millis() as u64;
